@@ -11,6 +11,7 @@ from liquid2 import TokenStream
 from .builtin import Content
 from .exceptions import LiquidSyntaxError
 from .token import TokenType
+from .token import WhitespaceControl
 from .token import is_comment_token
 from .token import is_content_token
 from .token import is_lines_token
@@ -43,14 +44,14 @@ class Parser:
         nodes: list[Node] = []
         stream = TokenStream(tokens)
 
-        default_trim = self.env.default_trim
-        left_trim = default_trim
+        left_trim = self.env.default_trim
 
         while True:
             token = stream.current()
             if is_content_token(token):
                 nodes.append(content.parse(stream, left_trim=left_trim))
-                left_trim = default_trim
+                # Only more text can follow text without setting `left_trim`.
+                left_trim = WhitespaceControl.PLUS
             elif is_comment_token(token):
                 left_trim = token.wc[-1]
                 nodes.append(comment.parse(stream))
@@ -94,7 +95,6 @@ class Parser:
         raw = tags["__RAW"]
         lines = tags["__LINES"]
 
-        default_trim = self.env.default_trim
         left_trim = stream.trim_carry
 
         nodes: list[Node] = []
@@ -103,7 +103,8 @@ class Parser:
             token = stream.current()
             if is_content_token(token):
                 nodes.append(content.parse(stream, left_trim=left_trim))
-                left_trim = default_trim
+                # Only more text can follow text without setting `left_trim`.
+                left_trim = WhitespaceControl.PLUS
             elif is_comment_token(token):
                 left_trim = token.wc[-1]
                 nodes.append(comment.parse(stream))
